@@ -17,7 +17,7 @@ OUTSIDE = ["N > 3 particles in 3-D / > 4 on a line, maps > 8 voxels (the path co
 BOUNDS = {"quick": {"particles": 3, "map_voxels": 4}, "thorough": {"particles": 4, "map_voxels": 8}}
 EXPECTED_EXCEPTIONS = ()
 OPTS = {"qtimeout": 10.0, "max_paths": 1500}
-OPTS_THOROUGH = {'max_paths': 30000, 'budget_s': 1500}
+OPTS_THOROUGH = {'max_paths': 30000, 'budget_s': 1200}
 
 
 def _false(env):
